@@ -119,6 +119,7 @@ struct Def {
     TypeId type2 = T_NONE;                                 // if set: type of the carriers of the 2nd field (both sides)
     std::vector<int> positions = {P_CHILD};
     bool refFirst = false;                                 // keyref element precedes the key element in the schema
+    int upHosts = 2;                                       // SC_UP: number of sibling <h> scopes that hand their keys up to the keyref's host
     int fillerN = 0, fillerPlace = 0;                      // growth space: n unrelated distinct tuples before(0) / after(1) / around(2) the list
     // derived
     std::vector<int> carriers;
@@ -144,6 +145,7 @@ struct Def {
         if (type2 != T_NONE) s += std::string("/f2:") + TYPE_NAME[type2];
         s += std::string(" values=") + VSET_NAME[vset] + " len<=" + std::to_string(maxLen);
         if (refFirst) s += " keyref-declared-first";
+        if (scope == SC_UP && upHosts != 2) s += " hosts=" + std::to_string(upHosts);
         if (fillerN) s += " fillers=" + std::to_string(fillerN) + "@" + std::to_string(fillerPlace);
         return s;
     }
@@ -181,10 +183,10 @@ static void build_def(Def& d) {
     d.items.clear();
     std::vector<int> groups = {0};
     if (d.scope == SC_REC) groups = {0, 1, 2};
-    if (d.scope == SC_UP) groups = {0, 1, 2, 3};
+    if (d.scope == SC_UP) { groups.clear(); for (int g = 0; g < d.upHosts + 2; g++) groups.push_back(g); }
     int nroles = d.isRef ? 2 : 1;
     for (int role = 0; role < nroles; role++) for (int g : groups) {
-        if (d.scope == SC_UP && ((role == 0) != (g == 1 || g == 2))) continue;   // keys live in the <h> elements, references in <g>
+        if (d.scope == SC_UP && ((role == 0) != (g >= 1 && g <= d.upHosts))) continue;   // keys live in the <h> elements, references in <g>
         for (int pos : d.positions) {
             // symbol choices per carrier
             std::vector<std::vector<int>> choice;
@@ -354,7 +356,7 @@ struct Instance { std::string xml; Tree tree; bool canonical = true; };
 // list (word over the item alphabet) -> fragment (the scope element, or for SC_ROOT the children of <d>) + tree rooted at index 0
 static Instance make_instance(const Def& d, const std::vector<int>& word) {
     Instance I;
-    int ngroups = d.scope == SC_REC ? 3 : d.scope == SC_UP ? 4 : 1;
+    int ngroups = d.scope == SC_REC ? 3 : d.scope == SC_UP ? d.upHosts + 2 : 1;
     std::vector<std::vector<int>> byGroup(ngroups);
     int last = 0;
     for (int w : word) { const Item& it = d.items[w]; if (it.group < last) I.canonical = false; last = it.group; byGroup[it.group].push_back(w); }
@@ -395,12 +397,12 @@ static Instance make_instance(const Def& d, const std::vector<int>& word) {
     }
     case SC_UP: {
         emit_items(top, byGroup[0]);
-        for (int g : {1, 2}) {   // an <h> without items is not emitted
+        for (int g = 1; g <= d.upHosts; g++) {   // an <h> without items is not emitted
             if (byGroup[g].empty()) continue;
             int h = add_elem(T, top, "", "h");
             x += "<h>"; emit_items(h, byGroup[g]); x += "</h>";
         }
-        emit_items(top, byGroup[3]);
+        emit_items(top, byGroup[d.upHosts + 1]);
         break;
     }
     }
@@ -769,7 +771,7 @@ static void space_pairs(int scope, int len, int lenRef, bool thorough) {
 }
 
 // S4: scope shapes (recursive, up)
-static void space_scopes(int lenRec, int lenRecRef, int lenUp) {
+static void space_scopes(int lenRec, int lenRecRef, int lenUp, int lenUpWide) {
     for (int kind = 0; kind < NKIND; kind++) {
         bool ref = kind >= K_REF_KEY;
         for (int sel : {S_R, S_DESC_R}) for (int f : {F_ATK, F_K}) for (TypeId t : {T_INTEGER, T_STRING}) {
@@ -783,6 +785,9 @@ static void space_scopes(int lenRec, int lenRecRef, int lenUp) {
                     Def u = d; u.scope = SC_UP; u.maxLen = lenUp; u.vset = VSET_TINY;
                     if (sel == S_DESC_R) { u.positions = {P_IN_A}; u.maxLen = std::min(u.maxLen, 3); }
                     add_def(u);
+                    // four sibling hosts: a value handed up by several of them is a conflict and must stay out of the node table of <g>
+                    // however many further hosts carry it (7|7|7, 1 2|1 2|1 2 1, ...)
+                    if (sel == S_R && lenUpWide > 0) { Def w = u; w.upHosts = 4; w.maxLen = lenUpWide; add_def(w); }
                 }
             }
         }
@@ -974,9 +979,9 @@ int main(int argc, char** argv) {
         space_paths(SC_ROOT, l1, l1r, 0, 0, false, T);
         bounds = "\"list_len\":{\"one_field\":" + std::to_string(l1) + ",\"one_field_ref\":" + std::to_string(l1r) + "}";
     } else if (space == "scopes") {
-        int lr = N("rec", 3, 4), lrr = N("recref", 2, 3), lu = N("up", 3, 4);
-        space_scopes(lr, lrr, lu);
-        bounds = "\"list_len\":{\"recursive\":" + std::to_string(lr) + ",\"recursive_ref\":" + std::to_string(lrr) + ",\"up\":" + std::to_string(lu) + "}";
+        int lr = N("rec", 3, 4), lrr = N("recref", 2, 3), lu = N("up", 3, 4), luw = N("upwide", 4, 5);
+        space_scopes(lr, lrr, lu, luw);
+        bounds = "\"list_len\":{\"recursive\":" + std::to_string(lr) + ",\"recursive_ref\":" + std::to_string(lrr) + ",\"up\":" + std::to_string(lu) + ",\"up_four_hosts\":" + std::to_string(luw) + "}";
     } else if (space == "growth") {
         std::vector<int> ns;
         std::string s = a.str("n", T ? "1,50,81,500" : "1,50,500");
